@@ -53,6 +53,12 @@ def handleOp (p : Params) (op : String) (a : List String) : String :=
   | "vadd" => showList (vecAdd p (parseList (a[0]?.getD "-")) (parseList (a[1]?.getD "-")))
   | "vsub" => showList (vecSub p (parseList (a[0]?.getD "-")) (parseList (a[1]?.getD "-")))
   | "vmul" => showList (vecMul p (parseList (a[0]?.getD "-")) (parseList (a[1]?.getD "-")))
+  | "valign" =>
+    let va := parseList (a[2]?.getD "-"); let vb := parseList (a[3]?.getD "-")
+    showList (match a[1]?.getD "" with
+      | "vadd" => vecAdd p va vb
+      | "vsub" => vecSub p va vb
+      | _ => vecMul p va vb)
   | "vscalarmul" => showList (vecScalarMul p (parseList (a[0]?.getD "-")) y)
   | "vsum" => toHex (vecSum p (parseList (a[0]?.getD "-")))
   | "vinner" => toHex (vecInner p (parseList (a[0]?.getD "-")) (parseList (a[1]?.getD "-")))
